@@ -148,8 +148,11 @@ pub fn c04(kind: Kind, obs: &[u8], rt: &RefTable, f10_known: bool) -> Verdict {
     let n = obs.len().min(exp.len());
     let mut first: Option<usize> = None;
     let mut only_len_field = true;
+    // The CXL RDPAS table is inconsistent about its own record length (fields add up to 17, the
+    // prescribed value is 16; known finding F10): that one field is not judged here.
+    let rdpas_len_fields: Vec<usize> = if kind == Kind::Cedt && rt.rdpas > 0 { rt.entries.iter().filter(|e| e.name == "cedt.rdpas").map(|e| e.off + 2).collect() } else { Vec::new() };
     for i in 0..n {
-        if obs[i] != exp[i] && !masked(kind, i) {
+        if obs[i] != exp[i] && !masked(kind, i) && !rdpas_len_fields.iter().any(|o| i == *o || i == *o + 1) {
             if first.is_none() {
                 first = Some(i);
             }
